@@ -17,6 +17,9 @@ inductive Ev where
   | stopBeg (k : Nat)         -- Stop call k begins
   | stopSet                   -- MODEL ONLY: `stopping = true` under the write lock
   | stopRet (k : Nat) (r : Nat) -- Stop call k returned: 0 nil, 1 caller deadline, 2 did not return
+  | gfeed (sid seq : Nat)     -- gateway: a SEND of session sid was fed (and admitted) before Server.Stop
+  | ghandled (sid seq : Nat)  -- gateway: it reached the message usecase
+  | gabandoned (sid seq : Nat) -- gateway: it never did (3 s after the handlers were released)
   deriving DecidableEq, Repr, Inhabited
 
 /-- after the stop began (model: the flag is set; log: some Stop call returned) nothing is admitted -/
@@ -64,6 +67,9 @@ def noCancellation (l : List Ev) : Bool :=
 
 def judge (l : List Ev) : String :=
   if l.any (fun | .stopRet _ 2 => true | _ => false) then "viol:stop-hung"
+  else if l.any (fun | .gabandoned _ _ => true | _ => false) then "viol:gateway-admitted-send-abandoned"
+  else if !((l.filterMap fun | .gfeed a b => some (a, b) | _ => none).all fun x =>
+      (l.filterMap fun | .ghandled a b => some (a, b) | _ => none).contains x) then "viol:gateway-admitted-send-abandoned"
   else if l.any (fun | .lost _ => true | _ => false) then "viol:accepted-send-without-terminal-result"
   else if l.any (fun | .term _ 2 => true | _ => false) then "viol:results-misaligned"
   else if !noCancellation l then "viol:accepted-send-cancelled-by-stop"
